@@ -85,10 +85,10 @@ impl Prop for C13 {
         false
     }
     fn rule(&self) -> String {
-        "Q = ~125 literal quantities (every proportional unit name once, plus base/derived/prefixed/compound spellings) and every shipped fact with a typeable full word set (~770), plus the single typeable words of the `files` constants as one-word phrases (pi, G, g0 ...). a*b=b*a for all ordered pairs of Q (quick: all literal pairs, every fact against a 24-element core and 40 facts against everything); a+b=b+a for the same pairs (incommensurable pairs must fail on both sides); a-a=0 and a/a=1 for all of Q; associativity of + and *, and distributivity written both ways (a*(b+c), (b+c)*a) for all triples over a 40-element core incl. 10 facts (quick 22 incl. 6). Both sides are evaluated by the tool on the same Db and compared in SI normal form. Non-trivial = both sides evaluate to a value; distinct = distinct law instances".into()
+        "Q = ~125 literal quantities (every proportional unit name once, plus base/derived/prefixed/compound spellings) and every shipped fact with a typeable full word set (~770), plus the single typeable words of the `files` constants as one-word phrases (pi, G, g0 ...). a*b=b*a for all ordered pairs of Q (quick: all literal pairs, every fact against a 24-element core and 40 facts against everything); a*b=b*a also for five temperatures on offset scales (°C, °F, long names, a prefixed one) against a 24-quantity core and each other; a+b=b+a for the same pairs (incommensurable pairs must fail on both sides); a-a=0 and a/a=1 for all of Q; associativity of + and *, and distributivity written both ways (a*(b+c), (b+c)*a) for all triples over a 40-element core incl. 10 facts (quick 22 incl. 6). Both sides are evaluated by the tool on the same Db and compared in SI normal form. Non-trivial = both sides evaluate to a value; distinct = distinct law instances".into()
     }
     fn assumptions(&self) -> Vec<String> {
-        vec!["SI normal form uses the independent unit table".into(), "offset scales are excluded (affine scales are not a field; no shipped fact uses one)".into(), "fact lookups are compared within one Db instance only".into()]
+        vec!["SI normal form uses the independent unit table".into(), "sums of temperatures on offset scales are excluded (affine scales are not a field under +; no shipped fact uses one); products with such a temperature as a factor are judged (a*b = b*a, both sides read with the degree as an interval)".into(), "fact lookups are compared within one Db instance only".into()]
     }
     fn generate(&self, tier: Tier, sink: &mut dyn FnMut(Case)) {
         let lits = literal_quantities();
@@ -126,6 +126,15 @@ impl Prop for C13 {
             }
             Tier::Thorough => {
                 pairs(&q, &q, sink);
+            }
+        }
+        // commutativity of the product also holds for a temperature on an offset scale as a factor
+        // (sums of such temperatures are not a field operation and stay excluded)
+        let temps = ["10 °C", "-40 °F", "0.5 celsius", "98.6 fahrenheit", "3 m°C"];
+        for t in temps {
+            for b in core.iter().map(|s| s.as_str()).chain(temps) {
+                let (a, b) = (p(t), p(b));
+                law("a*b-offset", format!("{a} * {b}"), format!("{b} * {a}"), &[], sink);
             }
         }
         // triples over a core incl. facts
@@ -193,10 +202,13 @@ impl Prop for C13 {
         match (&gl, &gr) {
             (Res::Err { .. }, Res::Err { .. }) => fw::pass(false, 0),
             (Res::Ok { value: lv, unit: lu, .. }, Res::Ok { value: rv, unit: ru, .. }) => {
-                if units::has_affine(lu) || units::has_affine(ru) {
+                // results that carry a degree are compared with the degree read as an interval on both
+                // sides (the reading is the same on both sides, so the law needs no choice of reading)
+                let interval = case.fam == "a*b-offset";
+                if !interval && (units::has_affine(lu) || units::has_affine(ru)) {
                     return Verdict::DontCare("offset scale");
                 }
-                let (sl, sr) = match (units::si_of(lv, lu, false), units::si_of(rv, ru, false)) {
+                let (sl, sr) = match (units::si_of(lv, lu, interval), units::si_of(rv, ru, interval)) {
                     (Ok(a), Ok(b)) => (a, b),
                     (Err(e), _) | (_, Err(e)) => return fw::fail("unit-table", e),
                 };
